@@ -30,6 +30,11 @@ type Region struct {
 type PtrV struct {
 	R    *Region // nil => nil pointer
 	Path []PathEl
+	// word view of a byte array obtained through unsafe.Pointer: View = bytes per word,
+	// Words = number of words, Word = index of the designated word (nil: the whole view)
+	View  int
+	Words int
+	Word  *Term
 }
 
 type SliceV struct {
